@@ -113,6 +113,22 @@ DoRunSD(v, x) ==
   /\ obs' = Obs("RunSD", v, IF gs[v].exists /\ SDRefused(gs[v], x.e) THEN "refused" ELSE "", <<>>)
   /\ UNCHANGED <<parts, idx>>
 
+\* server v restarts from a snapshot taken now (fsm.go Snapshot/Restore, no log
+\* suffix): the group is rebuilt from (members with their streams, coordinator,
+\* epoch) by adding the members one by one in the order of the snapshot (a Go
+\* map: any order `ord`), then finishedRecovery starts it.  Announcements that
+\* were still outstanding would die with the process, so the step is taken
+\* only when there are none.
+RECURSIVE AddInOrder(_, _, _, _)
+AddInOrder(g, q, subs, pc) ==
+  IF q = <<>> THEN g ELSE AddInOrder(GAddMember(g, Head(q), subs[Head(q)], pc), Tail(q), subs, pc)
+
+DoRestore(v, ord) ==
+  /\ gs[v].exists /\ pend[v] = {}
+  /\ gs' = [gs EXCEPT ![v] = AddInOrder(NewGroup(@.coord, @.epoch), ord, @.subs, parts)]
+  /\ obs' = Obs("Restore", v, "", <<>>)
+  /\ UNCHANGED <<pend, parts, idx>>
+
 \* FetchConsumerGroupAssignments(consumer, epoch) served by server v
 DoGetAssignments(v, c, e) ==
   /\ obs' = (IF ~gs[v].exists THEN Obs("GetAssignments", v, "no_group", <<>>)
@@ -192,5 +208,17 @@ P_RunSD(v, x) ==
   /\ gs'[v].exists = gs[v].exists
   /\ (gs[v].exists => /\ Members(gs'[v]) = Members(gs[v])
                       /\ \A c \in Members(gs[v]) : gs'[v].subs[c] \in {gs[v].subs[c], gs[v].subs[c] \ {x.s}})
+\* a restore keeps membership, subscriptions, coordinator and epoch
+P_Restore(v) ==
+  /\ \A w \in Servers \ {v} : gs'[w] = gs[w]
+  /\ gs'[v].exists = gs[v].exists
+  /\ gs[v].exists => (gs'[v].subs = gs[v].subs /\ gs'[v].epoch = gs[v].epoch /\ gs'[v].coord = gs[v].coord)
+\* when can a rebuilt group legitimately differ from the live one?  Assignments
+\* depend on the join/leave history as soon as members consume more than one
+\* stream, and heap entries without subscribers (they decide whether a later
+\* StreamDeleted moves the epoch) are not rebuilt.
+RestoreNeutral(g) ==
+  /\ Cardinality(UNION {g.subs[c] : c \in Members(g)}) <= 1
+  /\ DOMAIN g.heap = UNION {g.subs[c] : c \in Members(g)}
 P_Other == \A v \in Servers : gs'[v].exists => Members(gs'[v]) = Members(gs[v])
 =============================================================================
